@@ -162,6 +162,12 @@ def shapes(t, sd):
                     {"name": "p3", "type": ["u", 4], "bins": L["partitioned"], "ignore": [["ig", [3]]]}],
             "crosses": [{"name": "x", "cps": ["p1", "p2"]}, {"name": "y", "cps": ["p3", "p1"], "iff": "f"}]}
     items.append(dict(spec=spec, nsamples=1 if t == "quick" else 2, shape="auto*signed + second cross", max_seconds=300))
+    # more crosses than coverpoints, each with its own iff (type-level propagation indexes crosses and coverpoints separately)
+    spec = {"cps": [{"name": "p1", "type": ["u", 2], "bins": L["singles"][:1] + [["c", "bin", [[2, 3]]]]}, {"name": "p2", "type": ["u", 2], "bins": [["z", "bin", [0]], ["nz", "bin", [[1, 3]]]]}],
+            "crosses": [{"name": "xa", "cps": ["p1", "p2"], "iff": "f"}, {"name": "xb", "cps": ["p2", "p1"], "iff": "f"}, {"name": "xc", "cps": ["p1", "p2"], "iff": "f"},
+                        {"name": "xd", "cps": ["p2", "p1"]}]}
+    spec["cps"][0]["bins"] = [["lo", "bin", [[0, 1]]], ["hi", "bin", [[2, 3]]]]
+    items.append(dict(spec=spec, nsamples=1 if t == "quick" else 2, shape="four crosses over two coverpoints, separate iffs", max_seconds=300, max_paths=20000))
     # enum cross
     for ev in ((0, 5), (9, 200)):
         spec = {"cps": [{"name": "p1", "type": ["enum", "E5"]}, {"name": "p2", "type": ["u", 4], "bins": L["array_then_singles"]}],
